@@ -1220,8 +1220,11 @@ fn replay_one(report: &mut Report, v: &Value) {
     // carries one serialised Error, which the tape already covers)
     let text = if v["check"].as_str() == Some("display") { None } else { v["json_text"].as_str() };
     if let Some(text) = text {
-        let parsed: Result<Value, _> = serde_json::from_str(text);
-        let body = parsed.map_err(|e| e.to_string()).and_then(|val| body_from_value(&val));
+        let parsed: Result<Value, String> = match serde_json::from_str::<NoDuplicateNames>(text) {
+            Err(e) => Err(format!("not JSON with unique member names ({})", e)),
+            Ok(_) => serde_json::from_str(text).map_err(|e| e.to_string()),
+        };
+        let body = parsed.and_then(|val| body_from_value(&val));
         match body {
             Err(why) => {
                 report.count_extra("replay_json_text_outside_domain", 1);
@@ -1355,10 +1358,62 @@ pub fn run(report: &mut Report, replay: Option<&Value>) {
 /// body (kept only if it is inside the spec grammar, then checked against the expectation built
 /// by the reference reader) and (b) as a choice tape for the structured generator.
 /// Err(summary) = the property is violated for this input.
+/// Parses any JSON and fails on an object that repeats a member name. A JSON text with duplicate
+/// names has no defined meaning as a GraphQL response map (a `Value` keeps the last occurrence, a
+/// derived struct rejects the repetition): such texts are outside the property's domain.
+struct NoDuplicateNames;
+
+impl<'de> serde::Deserialize<'de> for NoDuplicateNames {
+    fn deserialize<D: serde::Deserializer<'de>>(d: D) -> Result<Self, D::Error> {
+        struct V;
+        impl<'de> serde::de::Visitor<'de> for V {
+            type Value = NoDuplicateNames;
+            fn expecting(&self, f: &mut std::fmt::Formatter) -> std::fmt::Result {
+                f.write_str("any JSON value")
+            }
+            fn visit_bool<E>(self, _: bool) -> Result<Self::Value, E> {
+                Ok(NoDuplicateNames)
+            }
+            fn visit_i64<E>(self, _: i64) -> Result<Self::Value, E> {
+                Ok(NoDuplicateNames)
+            }
+            fn visit_u64<E>(self, _: u64) -> Result<Self::Value, E> {
+                Ok(NoDuplicateNames)
+            }
+            fn visit_f64<E>(self, _: f64) -> Result<Self::Value, E> {
+                Ok(NoDuplicateNames)
+            }
+            fn visit_str<E>(self, _: &str) -> Result<Self::Value, E> {
+                Ok(NoDuplicateNames)
+            }
+            fn visit_unit<E>(self) -> Result<Self::Value, E> {
+                Ok(NoDuplicateNames)
+            }
+            fn visit_seq<A: serde::de::SeqAccess<'de>>(self, mut a: A) -> Result<Self::Value, A::Error> {
+                while a.next_element::<NoDuplicateNames>()?.is_some() {}
+                Ok(NoDuplicateNames)
+            }
+            fn visit_map<A: serde::de::MapAccess<'de>>(self, mut a: A) -> Result<Self::Value, A::Error> {
+                let mut seen = std::collections::BTreeSet::new();
+                while let Some(k) = a.next_key::<String>()? {
+                    if !seen.insert(k) {
+                        return Err(<A::Error as serde::de::Error>::custom("duplicate member name"));
+                    }
+                    a.next_value::<NoDuplicateNames>()?;
+                }
+                Ok(NoDuplicateNames)
+            }
+        }
+        d.deserialize_any(V)
+    }
+}
+
 pub fn fuzz_one(data: &[u8]) -> Result<(), String> {
     let mut ctx = Ctx::default();
     if let Ok(text) = std::str::from_utf8(data) {
-        if let Ok(v) = serde_json::from_str::<Value>(text) {
+        if serde_json::from_str::<NoDuplicateNames>(text).is_err() {
+            // not JSON, or JSON with a repeated member name: only the tape decoding below applies
+        } else if let Ok(v) = serde_json::from_str::<Value>(text) {
             if let Ok(b) = body_from_value(&v) {
                 let r = catch_unwind(AssertUnwindSafe(|| check_body(&b, &[("fuzzer json", text.to_string())], &mut ctx)));
                 match r {
